@@ -41,7 +41,9 @@ CHECK_RE = re.compile(r'Check (\d+): (\S+)\s*\n\s*- Status: (\w+)\s*\n\s*- Descr
 
 
 def parse_output(out):
-    """-> {harness: dict(checks=[...], verdict='SUCCESSFUL'|'FAILED'|None, time=float)}"""
+    """-> {harness: dict(checks=[...], verdict='SUCCESSFUL'|'FAILED'|None, time=float)}   (regular or terse format)"""
+    if re.search(r'^Thread \d+: Checking harness', out, re.M):
+        return parse_terse(out)
     res = {}
     parts = re.split(r'^Checking harness (\S+?)\.\.\.\s*$', out, flags=re.M)
     # parts: [pre, name1, body1, name2, body2...]
@@ -53,8 +55,55 @@ def parse_output(out):
             checks.append(dict(n=int(m.group(1)), name=m.group(2), status=m.group(3), desc=m.group(4).strip('"'), loc=(m.group(5) or '').strip()))
         vm = re.search(r'VERIFICATION:- (\w+)', body)
         tm = re.search(r'Verification Time: ([\d.]+)s', body)
-        res[name.split('::')[-1]] = dict(full=name, checks=checks, verdict=vm.group(1) if vm else None, time=float(tm.group(1)) if tm else None,
-                                         unwinding_failed=bool(re.search(r'unwinding assertion', body) and re.search(r'Status: FAILURE\s*\n\s*- Description: "unwinding assertion', body)))
+        res[name.split('::')[-1]] = dict(full=name, checks=checks, verdict=vm.group(1) if vm else None, time=float(tm.group(1)) if tm else None)
+    return res
+
+
+def parse_terse(out):
+    """terse (-j) format: per-thread blocks; only failed checks are listed, totals are given as counts."""
+    res = {}
+    cur = {}
+    # split into thread blocks
+    blocks = re.split(r'^Thread (\d+): ', out, flags=re.M)
+    for i in range(1, len(blocks), 2):
+        th, body = blocks[i], blocks[i + 1]
+        m = re.match(r'Checking harness (\S+?)\.\.\.', body)
+        if m:
+            cur[th] = m.group(1)
+            continue
+        name = cur.get(th)
+        if not name:
+            continue
+        vm = re.search(r'VERIFICATION:- (\w+)', body)
+        tm = re.search(r'Verification Time: ([\d.]+)s', body)
+        cm = re.search(r'\*\* (\d+) of (\d+) failed(?: \(([^)]*)\))?', body)
+        cov = re.search(r'\*\* (\d+) of (\d+) cover properties satisfied(?: \(([^)]*)\))?', body)
+        checks = []
+        nfail = int(cm.group(1)) if cm else 0
+        ntot = int(cm.group(2)) if cm else 0
+        extra = cm.group(3) if cm and cm.group(3) else ''
+        nund = int(re.search(r'(\d+) undetermined', extra).group(1)) if 'undetermined' in extra else 0
+        nunr = int(re.search(r'(\d+) unreachable', extra).group(1)) if 'unreachable' in extra else 0
+        fails = re.findall(r'Failed Checks: (.*)\n\s*File: (.*)', body)
+        k = 0
+        for desc, loc in fails:
+            k += 1
+            checks.append(dict(n=k, name='assertion', status='FAILURE', desc=desc.strip().strip('"'), loc=loc.strip()))
+        for j in range(nund):
+            k += 1
+            checks.append(dict(n=k, name='undetermined', status='UNDETERMINED', desc='', loc=''))
+        for j in range(nunr):
+            k += 1
+            checks.append(dict(n=k, name='unreachable', status='UNREACHABLE', desc='', loc=''))
+        for j in range(max(0, ntot - len(fails) - nund - nunr)):
+            k += 1
+            checks.append(dict(n=k, name='assertion', status='SUCCESS', desc='', loc=''))
+        if cov:
+            sat, tot = int(cov.group(1)), int(cov.group(2))
+            for j in range(tot):
+                k += 1
+                checks.append(dict(n=k, name='x.cover.%d' % j, status='SATISFIED' if j < sat else 'UNSATISFIABLE', desc='cover %d of %d' % (j + 1, tot), loc=''))
+        res[name.split('::')[-1]] = dict(full=name, checks=checks, verdict=vm.group(1) if vm else None, time=float(tm.group(1)) if tm else None)
     return res
 
 
@@ -65,7 +114,7 @@ def run_kani(src, BUILD, crate, harnesses, extra_flags, timeout, log_path, jobs=
     for h in harnesses:
         cmd += ['--harness', h]
     if jobs and len(harnesses) > 1:
-        cmd += ['-j', str(jobs), '--output-format', 'regular']
+        cmd += ['-j', str(jobs), '--output-format', 'terse']
     t0 = time.time()
     with open(log_path, 'w') as lf:
         try:
